@@ -24,7 +24,6 @@ from .. import spec as specmod
 from .decode_check import mutate_source
 
 P = refmodel.P
-IGNORE_PREFIX = (P + 'changed_registers',)
 
 DISPATCH = {
     'SVCException': 'take_svc_exception',
@@ -69,6 +68,8 @@ def compare_entry(run, repo, method, rule='C11-T', extra_domain=None):
     if B.AND(dom, B.NOT(res.returned)) != 0:
         run.violation(rule, fi.relpath, fi.qualname, 'termination',
                       'exception entry does not complete for some valid state (raises or falls into a host error)')
+    from .. import bookkeeping
+    IGNORE_PREFIX = bookkeeping.ignore_prefixes(repo, P)      # per-instruction flags of the cycle driver
     keys = sorted(set(res.heap) | set(e.final))
     nob = 0
     ok_all = True
